@@ -48,6 +48,12 @@ public:
   void VarPriorities(ArrayRef<int> p) override;
   ALLOW_STD_FEATURE(LAZY_USER_CUTS, true)
   void MarkLazyOrUserCuts(ArrayRef<int> l) override;
+  // C04: sensitivity ranges and rays are scripted too (`sens_<field>`, `ray`, `dray`); options alg:sens, alg:rays
+  ALLOW_STD_FEATURE(SENSITIVITY_ANALYSIS, true)
+  SensRangesPresolved GetSensRangesPresolved() override;
+  ALLOW_STD_FEATURE(RAYS, true)
+  ArrayRef<double> Ray() override;
+  ArrayRef<double> DRay() override;
   ALLOW_STD_FEATURE(IIS, true)
   void ComputeIIS() override {}
   IIS GetIIS() override;
